@@ -552,4 +552,93 @@ theorem writeItems_arrays (cols : List Bytes) (rows : List (List Cell))
     putRows (startTable cols) rows rfl hrows]
 
 
+/-! ## non-default separator / decimal symbol -/
+
+theorem localize_dot (c : Cell) : localize 46 c = c := by
+  cases c <;> simp [localize]
+
+theorem map_localize_dot (r : List Cell) : r.map (localize 46) = r := by
+  induction r with
+  | nil => rfl
+  | cons c t ih => simp [localize_dot, ih]
+
+theorem putItemG_default (w : WState) (it : WItem) : putItemG 44 46 w it = putItem w it := by
+  cases it with
+  | cell c => simp [putItemG, putItem, putCellG, putCell, rowTextG, map_localize_dot]
+  | arr cs => simp [putItemG, putItem, putArrayG, putArray, rowTextG, map_localize_dot]
+
+/-- with the default separator and decimal symbol the general writer is the writer of `csv_table_roundtrip` -/
+theorem writeItemsG_default (cols : List Bytes) (items : List WItem) :
+    writeItemsG 44 46 cols items = writeItems cols items := by
+  unfold writeItemsG writeItems
+  have : startTableG 44 cols = startTable cols := rfl
+  rw [this]
+  generalize startTable cols = w
+  induction items generalizing w with
+  | nil => rfl
+  | cons it t ih => simp only [List.foldl_cons, putItemG_default, ih]
+
+theorem numByte_ne59 (c : UInt8) (h : numByte c) : c ≠ 59 := by
+  unfold numByte at h
+  simp only [UInt8.le_iff_toNat_le, ne_eq, ← UInt8.toNat_inj] at h ⊢
+  simp at h ⊢
+  omega
+
+/-- a number text written with `.` is read as that number also under the decimal comma the reader guesses
+    for `;`-separated files (the repaired type inference) -/
+theorem inferCell_comma_num (n : Num) (h : n.WF) : inferCell 44 n.text = .num (atofDec n.text) := by
+  have h44 : ∀ c ∈ n.text, c ≠ 44 := fun c hc => (numByte_ne c (numText_bytes n h c hc)).2.2.2.1
+  have hmap : n.text.map (fun c => if c = 44 then 46 else c) = n.text := by
+    have : ∀ (l : Bytes), (∀ c ∈ l, c ≠ 44) → l.map (fun c => if c = 44 then 46 else c) = l := by
+      intro l hl
+      induction l with
+      | nil => rfl
+      | cons x t ih =>
+        have hx : ¬ x = 44 := hl x (by simp)
+        simp [hx, ih (fun c hc => hl c (by simp [hc]))]
+    exact this _ h44
+  unfold inferCell
+  simp [isNumber_text n h, hmap]
+
+theorem inferCell_comma_str (s : Bytes) (h1 : isNumber 44 s = false) (h2 : isNumber 46 s = false) :
+    inferCell 44 s = .str s := by
+  simp [inferCell, h1, h2]
+
+/-- cells of a `;`-separated file written with the default decimal point -/
+def CellWFsemi : Cell → Prop
+  | .str s => StrOK s ∧ isNumber 44 s = false
+  | .num l => NumText l
+
+theorem cellWFsemi_ok (c : Cell) (h : CellWFsemi c) : CellOK 59 c := by
+  cases c with
+  | str s => exact ⟨h.1.2.2.2.2, h.1.1, h.1.2.1⟩
+  | num l =>
+    obtain ⟨n, hn, rfl⟩ := h
+    exact ⟨fun hc => (numByte_ne 34 (numText_bytes n hn 34 hc)).2.2.1 rfl,
+           fun hc => numByte_ne59 59 (numText_bytes n hn 59 hc) rfl,
+           fun hc => (numByte_ne 0 (numText_bytes n hn 0 hc)).2.2.2.2.2 rfl,
+           fun hc => (numByte_ne 10 (numText_bytes n hn 10 hc)).1 rfl,
+           fun hc => (numByte_ne 13 (numText_bytes n hn 13 hc)).2.1 rfl⟩
+
+theorem inferCell_semi (c : Cell) (h : CellWFsemi c) : inferCell 44 (cellText c) = expected c := by
+  cases c with
+  | str s => exact inferCell_comma_str s h.2 h.1.2.2.1
+  | num l =>
+    obtain ⟨n, hn, rfl⟩ := h
+    exact inferCell_comma_num n hn
+
+/-- a row written after `setSeparator(';')` (decimal point kept) and parsed as the reader parses a file whose
+    header contains `;` (separator `;`, decimal symbol `,`) -/
+theorem row_read_semi (c : Cell) (t : List Cell) (hc : CellWFsemi c) (ht : ∀ x ∈ t, CellWFsemi x) :
+    (parseRow 59 (rowTextG 59 46 (c :: t))).map (inferCell 44) = (c :: t).map expected := by
+  unfold rowTextG
+  rw [map_localize_dot, parseRow_writeRow 59 (by decide) c t (cellWFsemi_ok c hc) (fun x hx => cellWFsemi_ok x (ht x hx))]
+  simp only [List.map_cons, List.map_map]
+  rw [inferCell_semi c hc]
+  congr 1
+  apply List.map_congr_left
+  intro x hx
+  exact inferCell_semi x (ht x hx)
+
+
 end AslProofs.Csv
